@@ -19,11 +19,11 @@ POSS = ['x', 'y']
 def plan(tier, seed):
     specs = [(1, 2), (2, 2), (3, 1), (4, 1), (5, 0)] if tier == 'quick' else [(1, 3), (2, 2), (3, 2), (4, 1), (5, 1), (6, 0)]
     dev = 2
-    chunks = sweep.shape_chunks(specs, per_chunk=16, kind='single', dev=dev)
+    chunks = sweep.shape_chunks(specs, per_chunk=16, big=True, kind='single', dev=dev)
     pool_n = 3
     chunks.append({'kind': 'pairs', 'n': pool_n, 'k': 2 if tier == 'quick' else 3})
     return {
-        'chunks': chunks,
+        'chunks': chunks + [{'kind': 'clipipe-grammar'}],
         'rule': 'single-tree treebanks: every hierarchy over n tokens (<= u unary) x every assignment of '
                 'constituent labels from {A,B} and POS tags from {x,y} within %d deviations of all-A/all-x '
                 '(words repeat so that lexicon counts exceed 1); multi-tree treebanks: every sequence of k trees '
@@ -32,7 +32,8 @@ def plan(tier, seed):
                 'non-trivial = distinct treebanks with a discontinuous node or a count > 1' % (dev, pool_n),
         'bound': ', '.join('n=%d:u<=%d' % s for s in specs) + '; label deviations <= %d' % dev,
         'exhaustive': True,
-        'assumptions': ['labels carry no trailing digit (the vertical context appends the fan-out)',
+        'assumptions': ['driver differential (vt/clipipe.py): `treetools grammar` in 11 type / Markov / format / prefix combinations on a six-sentence treebank (same rule under contexts that differ at depth 1 and in fan-out only, one production with two linearizations, a five-child node with equal middle labels) must write, under the prefix given, what extraction + binarization + writer give through the library',
+                        'labels carry no trailing digit (the vertical context appends the fan-out)',
                         'each single-tree treebank is extracted three ways: API-built, API-built with reversed child lists, and '
                         'written as an export file (tokens #1, #12, #1234, which are not node references), read back, made '
                         'continuous and extracted; the tree read must hold exactly the tokens of the file'],
@@ -139,11 +140,19 @@ def check_bank(mtjs, order=None):
 
 
 def check_case(case):
+    if 'grammar_run' in case:
+        from .. import clipipe
+        return clipipe.replay_grammar(case)
     with quiet():
         return check_bank(case['bank'], case.get('order'))[0]
 
 
 def run_chunk(chunk):
+    if chunk.get('kind') == 'clipipe-grammar':
+        from .. import clipipe
+        res = Result()
+        clipipe.run_grammar(res)
+        return res
     res = Result()
 
     def take(vs, nt, key):
